@@ -234,13 +234,15 @@ theorem bip143_digest_commits (H : Bytes → Bytes) (sc sc' : Bytes) (tx tx' : T
 
 /-! ## T3 — the declared errors are refused -/
 
-/-- T3 (BIP341): whenever `taproot` answers with a digest the input index names an input, the hash type is one
-    of the seven of `SIG_HASH_TYPES` (regenerated from the source), and SIGHASH_SINGLE has its output -- i.e.
-    an undefined type, an index out of range and SINGLE without a matching output are all refused. -/
+/-- T3 (BIP341): whenever `taproot` answers with a digest the input index names an input, there is one spent
+    output per input, the hash type is one of the seven of `SIG_HASH_TYPES` (regenerated from the source), and
+    SIGHASH_SINGLE has its output -- i.e. an index out of range, a prevouts list of the wrong length (on every
+    path, ANYONECANPAY included), an undefined type and SINGLE without a matching output are all refused. -/
 theorem taproot_refuses_declared_errors (S : Bytes → Bytes) (tx : Tx) (i : Int) (prevouts : List TxOut)
     (ht extFlag : Int) (annex msgExt : Bytes) (pre : Option Impl.Precomputed) (d : Bytes)
     (h : Impl.taproot S tx i prevouts ht extFlag annex msgExt pre = .ok d) :
-    0 ≤ i ∧ i < tx.vin.length ∧ Impl.intMem ht Gen.SigHash.SIG_HASH_TYPES = true ∧
+    0 ≤ i ∧ i < tx.vin.length ∧ prevouts.length = tx.vin.length ∧
+      Impl.intMem ht Gen.SigHash.SIG_HASH_TYPES = true ∧
       ¬ (tapSingle ht.toNat = true ∧ i.toNat ≥ tx.vout.length) :=
   Impl.taproot_ok_defined h
 
